@@ -508,9 +508,10 @@ func family1Programs(c int, fullArity3 bool) (progs []f1Prog, exhaustive bool) {
 var (
 	ctxContractCode = ctxContract()
 	staticWrapCode  = forwarder(opSTATICCALL, 0, addrA, false)
+	callWrapCode    = forwarder(opCALL, 0, addrA, false)
 )
 
-func family1Case(p f1Prog, static bool, mode string) *txCase {
+func family1Case(p f1Prog, ctx string, mode string) *txCase {
 	code := family1Code(p)
 	k := &txCase{Family: "opcode", Mode: mode, Input: calldataPattern}
 	k.Pre = []account{
@@ -519,11 +520,13 @@ func family1Case(p f1Prog, static bool, mode string) *txCase {
 		{Addr: addrB, Balance: 7, Nonce: 1, Code: ctxContractCode},
 		{Addr: addrF, Balance: 3},
 	}
-	ctx := "direct"
 	k.To = addrA
-	if static {
-		ctx = "static"
+	switch ctx {
+	case "static":
 		k.Pre = append(k.Pre, account{Addr: addrW, Balance: 9, Nonce: 1, Code: staticWrapCode})
+		k.To = addrW
+	case "nested":
+		k.Pre = append(k.Pre, account{Addr: addrW, Balance: 9, Nonce: 1, Code: callWrapCode})
 		k.To = addrW
 	}
 	v := p.Variant
@@ -531,7 +534,7 @@ func family1Case(p f1Prog, static bool, mode string) *txCase {
 		v = "plain"
 	}
 	k.Label = fmt.Sprintf("%s(%s) %s ctx=%s", opTable[p.Op].name, strings.Join(p.Names, ","), v, ctx)
-	k.Sig = map[string]string{"family": "opcode", "op": opTable[p.Op].name, "ctx": ctx, "config": mode, "static": yesno(static)}
+	k.Sig = map[string]string{"family": "opcode", "op": opTable[p.Op].name, "ctx": ctx, "config": mode, "static": yesno(ctx == "static")}
 	return k
 }
 
@@ -598,10 +601,10 @@ func family2Name(toks []int) string {
 }
 
 // family2Case: variant = calldata index*2 + prestate index
-func family2Case(toks []int, variant int, mode string) *txCase {
+func family2Case(toks []int, code []byte, variant int, mode string) *txCase {
 	cd, ps := variant/2, variant%2
 	k := &txCase{Family: "program", Mode: mode, Input: family2Calldata[cd], To: addrA, WorkLimit: workLimitShort}
-	a := account{Addr: addrA, Balance: 1000, Nonce: 1, Code: family2Code(toks)}
+	a := account{Addr: addrA, Balance: 1000, Nonce: 1, Code: code}
 	if ps == 1 {
 		a.Storage = storageSet
 	}
